@@ -11,4 +11,9 @@ CHECKS = {
   'note': 'Trusts: re._parser\'s syntax tree equals what re compiles; Glushkov construction; known findings (exponential STRING/URI patterns) are listed in known_findings.json.',
  },
 }
+CHECKS['C01'] = {
+  'technique': 'CFG must-pass-through + callback return-state analysis + regex ambiguity automata + evaluation-count dataflow on the serializer cycle',
+  'text': 'Decides necessary conditions of "never raises, never hangs" that are visible on every path: DOM work only inside the log-mode window (R01.a), every production callback returns a parser state on all paths (R01.b), tokenizer totality/progress (R01.c), no exponentially ambiguous token/helper pattern (R01.d; validation patterns in the thorough tier), at most one evaluation of a child text per serializer path (R01.e), token-value helpers only on typed tokens (R01.f). Does not decide absence of data-dependent exceptions, recursion depth or cyclic @import.',
+  'note': 'Name-based call resolution (self.X, nested defs, New.productions); known findings: exponential STRING/URI token patterns (known_findings.json).',
+}
 NOT_APPLICABLE = {}
